@@ -41,6 +41,10 @@ impl FqVarExtension for FqVar {
             return Ok((Boolean::constant(was_square), FqVar::constant(y)));
         }
 
+        // Verification hook: lets a harness substitute the prover's hint.
+        #[cfg(decaf377_verif)]
+        let (was_square, y) = crate::ark_curve::verif::isqrt_hint(&den, was_square, y);
+
         let cs = self.cs();
         let was_square_var = Boolean::new_witness(cs.clone(), || Ok(was_square))?;
         let y_var = FqVar::new_witness(cs.clone(), || Ok(y))?;
